@@ -169,23 +169,7 @@ class Program:
         if isinstance(st, (ast.FunctionDef, ast.AsyncFunctionDef)):
             m.functions[st.name] = FuncInfo(st.name, m, st)
         elif isinstance(st, ast.ClassDef):
-            ci = ClassInfo(st.name, m, st, list(st.bases))
-            for s in st.body:
-                if isinstance(s, (ast.FunctionDef, ast.AsyncFunctionDef)):
-                    # property setters/deleters share a name: keep the getter
-                    # under the name and the others under name@setter
-                    key = s.name
-                    for d in s.decorator_list:
-                        if isinstance(d, ast.Attribute) and d.attr in ('setter', 'deleter'):
-                            key = f'{s.name}@{d.attr}'
-                    ci.methods[key] = FuncInfo(s.name, m, s, ci)
-                elif isinstance(s, ast.Assign):
-                    for t in s.targets:
-                        if isinstance(t, ast.Name):
-                            ci.attrs[t.id] = s.value
-                elif isinstance(s, ast.AnnAssign) and isinstance(s.target, ast.Name) and s.value is not None:
-                    ci.attrs[s.target.id] = s.value
-            m.classes[st.name] = ci
+            self._index_class(m, st, '')
         elif isinstance(st, ast.Import):
             for a in st.names:
                 local = a.asname or a.name.split('.')[0]
@@ -209,6 +193,29 @@ class Program:
             for s in ast.iter_child_nodes(st):
                 if isinstance(s, ast.stmt):
                     self._index_stmt(m, s)
+
+    def _index_class(self, m, st, prefix):
+        ci = ClassInfo(prefix + st.name, m, st, list(st.bases))
+        for s in st.body:
+            if isinstance(s, (ast.FunctionDef, ast.AsyncFunctionDef)):
+                # property setters/deleters share a name: keep the getter
+                # under the name and the others under name@setter
+                key = s.name
+                for d in s.decorator_list:
+                    if isinstance(d, ast.Attribute) and d.attr in ('setter', 'deleter'):
+                        key = f'{s.name}@{d.attr}'
+                ci.methods[key] = FuncInfo(s.name, m, s, ci)
+            elif isinstance(s, ast.Assign):
+                for t in s.targets:
+                    if isinstance(t, ast.Name):
+                        ci.attrs[t.id] = s.value
+            elif isinstance(s, ast.AnnAssign) and isinstance(s.target, ast.Name) and s.value is not None:
+                ci.attrs[s.target.id] = s.value
+            elif isinstance(s, ast.ClassDef):
+                # a class nested in a class: a class of the module under its dotted name, and an attribute of the outer class
+                self._index_class(m, s, prefix + st.name + '.')
+                ci.attrs[s.name] = ast.copy_location(ast.Name(id=prefix + st.name + '.' + s.name, ctx=ast.Load()), s)
+        m.classes[prefix + st.name] = ci
 
     @staticmethod
     def _target_names(t):
